@@ -18,6 +18,11 @@ type Effects struct {
 	arrays     map[string]*arrEffect // heap array name -> effect
 	all        bool                  // unknown call: everything
 	why        []string
+	// ghost state the region may change (scalar ghosts are not heap arrays: they need their own havoc at loop heads)
+	calls   map[string]bool // callee expression texts of every call in the region (transitively through inlined callees)
+	anyCall bool
+	spawns  bool // go statement
+	syncs   bool // channel operation or select
 }
 
 type arrEffect struct {
@@ -33,7 +38,7 @@ type arrEffect struct {
 }
 
 func newEffects() *Effects {
-	return &Effects{vars: map[types.Object]bool{}, arrays: map[string]*arrEffect{}}
+	return &Effects{vars: map[types.Object]bool{}, arrays: map[string]*arrEffect{}, calls: map[string]bool{}}
 }
 
 func (e *Effects) arr(name string) *arrEffect {
@@ -378,6 +383,12 @@ func (vc *VC) collectEffects(eff *Effects, n ast.Node, info *types.Info, depth i
 			return true
 		case *ast.GoStmt:
 			eff.all = true
+			eff.spawns = true
+		case *ast.SelectStmt, *ast.SendStmt:
+			eff.syncs = true
+		}
+		if u, ok := n.(*ast.UnaryExpr); ok && u.Op == token.ARROW {
+			eff.syncs = true
 		}
 		return true
 	})
@@ -386,6 +397,13 @@ func (vc *VC) collectEffects(eff *Effects, n ast.Node, info *types.Info, depth i
 func (vc *VC) callEffects(eff *Effects, call *ast.CallExpr, info *types.Info, depth int) {
 	if tv, ok := info.Types[call.Fun]; ok && tv.IsType() {
 		return
+	}
+	if id, ok := ast.Unparen(call.Fun).(*ast.Ident); ok {
+		if _, isB := info.ObjectOf(id).(*types.Builtin); !isB {
+			eff.calls[exprStr(call.Fun)], eff.anyCall = true, true
+		}
+	} else {
+		eff.calls[exprStr(call.Fun)], eff.anyCall = true, true
 	}
 	fun := ast.Unparen(call.Fun)
 	var fn *types.Func
@@ -515,6 +533,10 @@ func (vc *VC) callEffects(eff *Effects, call *ast.CallExpr, info *types.Info, de
 				eff.all = true
 				eff.why = append(eff.why, sub.why...)
 			}
+			for c := range sub.calls {
+				eff.calls[c] = true
+			}
+			eff.spawns, eff.syncs = eff.spawns || sub.spawns, eff.syncs || sub.syncs
 			for name, a := range sub.arrays {
 				b := eff.arr(name)
 				*b = arrEffect{sort: a.sort, whole: true, isMap: a.isMap, mt: a.mt, fld: a.fld, structT: a.structT, boxT: a.boxT, bases: map[types.Object]bool{}}
@@ -707,9 +729,16 @@ func (env *SpecEnv) staticType(e *SExpr) types.Type {
 
 // havocEffects forgets modified variables and heap arrays.
 func (vc *VC) havocEffects(s *State, eff *Effects) {
+	vc.havocGhost(s, eff)
 	if eff.all {
 		vc.prog.Uncontracted[fmt.Sprintf("loop in %s havocs the whole heap: %v", shortKey(vc.fn.Key), eff.why)] = true
 		vc.havocHeap(s, "loop")
+		// havocHeap keeps the ghost arrays (an opaque callee cannot touch them); a loop body can
+		for name := range eff.arrays {
+			if strings.HasPrefix(name, "GH.") {
+				vc.havocArr(s, name)
+			}
+		}
 	}
 	var objs []types.Object
 	for o := range eff.vars {
@@ -1105,5 +1134,69 @@ func (vc *VC) execRange(s *State, x *ast.RangeStmt, label string) {
 		vc.join(s, append([]*State{exit}, tgt.breaks...)...)
 	default:
 		vc.unsupported(x, "range over "+xt.String())
+	}
+}
+
+// havocGhost forgets, at a loop head, the ghost state an iteration may change: call records of the callees called in
+// the region, the goroutine / channel / WaitGroup counters when the region spawns or synchronises, the failure and
+// exit flags and the ghost file system when it calls anything. Counters only grow.
+func (vc *VC) havocGhost(s *State, eff *Effects) {
+	var keys []string
+	for k := range s.ghost {
+		keys = append(keys, k)
+	}
+	sort.Strings(keys)
+	grow := func(k string) {
+		old := s.ghost[k]
+		n := Fresh(strings.TrimPrefix(k, "$"), old.Sort)
+		if old.Sort == SInt {
+			s.assume(Ge(n, old))
+		}
+		s.ghost[k] = n
+	}
+	for _, k := range keys {
+		switch {
+		case strings.HasPrefix(k, "$call."):
+			rest := strings.TrimPrefix(k, "$call.")
+			i := strings.LastIndex(rest, ".")
+			if i > 0 && eff.calls[rest[:i]] {
+				if strings.HasSuffix(k, ".n") {
+					grow(k)
+				} else {
+					s.ghost[k] = Fresh("rec", s.ghost[k].Sort)
+				}
+			}
+		case k == "$spawned":
+			if eff.spawns {
+				grow(k)
+			}
+		case k == "$quiet", k == "$defaultTaken":
+			if eff.spawns || eff.syncs || eff.anyCall {
+				s.ghost[k] = Fresh(strings.TrimPrefix(k, "$"), SBool)
+			}
+		case k == "$fcalls":
+			if eff.anyCall {
+				grow(k)
+			}
+		case k == "$failed", k == "$exited", k == "$recovered":
+			if eff.anyCall {
+				s.ghost[k] = Fresh(strings.TrimPrefix(k, "$"), SBool)
+			}
+		case k == "$exitcode":
+			if eff.anyCall {
+				s.ghost[k] = Fresh("exitcode", SInt)
+			}
+		case strings.HasPrefix(k, "$fs."):
+			if eff.anyCall {
+				s.ghost[k] = Fresh("fs", s.ghost[k].Sort)
+			}
+		}
+	}
+	if eff.spawns || eff.syncs || eff.anyCall {
+		for _, g := range []string{"sent", "recvd", "wgdone", "wgadd", "fcalls", "sentNonNil"} {
+			if _, ok := s.heap["GH."+g]; ok {
+				vc.havocArr(s, "GH."+g)
+			}
+		}
 	}
 }
